@@ -90,3 +90,13 @@ Example resolve_example :
   /\ main ops_now ["x"] (fs_of [("x", Parsed [Decl {| dname := "X"; drefs := ["Y"]; dpost_ok := true |}])]) "x" true false true
      = (2%Z, false).
 Proof. vm_compute. repeat split; reflexivity. Qed.
+
+(* non-vacuity of the premise `forall p items, fs p = Parsed items -> In p files` (resolve_terminates, resolve_succeeds_iff,
+   main_exit_spec): it holds for EVERY finite file table with files := the listed paths -- in particular for the table of
+   resolve_example, on which `parse` is `Done` (the premise of resolve_once / resolve_order / resolve_imports_first) *)
+Lemma files_premise_nonvacuous : forall table p items, fs_of table p = Parsed items -> In p (map fst table).
+Proof.
+  induction table as [|[q f] rest IH]; intros p items H; cbn [fs_of] in H; [discriminate|].
+  cbn [map fst In]. destruct (String.eqb p q) eqn:E; [left; symmetry; apply String.eqb_eq; exact E|right; exact (IH p items H)].
+Qed.
+Print Assumptions files_premise_nonvacuous.
